@@ -161,8 +161,20 @@ static void check_doc(Ctx &ctx, const std::string &doc, uint64_t salt)
 	std::vector<Inj> inj;
 	build_injections(doc, ref, inj, salt);
 	bool nt = false;
-	for (auto &x : inj)
+	// one strict tokener used for every injected text of this document, reset in between (the usual way to reuse one)
+	struct Reused {
+		json_tokener *t = json_tokener_new();
+		~Reused() { json_tokener_free(t); }
+	} reused;
+	json_tokener_set_flags(reused.t, JSON_TOKENER_STRICT);
+	// wide documents have thousands of injection sites and every site costs several parses of the whole text:
+	// beyond 160 sites a salt-dependent subset (every n-th site, first and last always) is checked
+	size_t stride = inj.size() > 160 ? (inj.size() + 159) / 160 : 1;
+	for (size_t xi = 0; xi < inj.size(); xi++)
 	{
+		if (stride > 1 && xi % stride != salt % stride && xi + 1 != inj.size() && xi != 0)
+			continue;
+		auto &x = inj[xi];
 		ctx.label(KNAME[x.k]);
 		if (x.depth >= 1 || x.in_name || x.first_or_last)
 			nt = true;
@@ -172,6 +184,12 @@ static void check_doc(Ctx &ctx, const std::string &doc, uint64_t salt)
 		POut s = parse_fresh(x.text, JSON_TOKENER_STRICT, 32, true);
 		if (s.err == json_tokener_success)
 			ctx.fail(std::string("strict-accepts-") + KNAME[x.k], "strict mode accepted " + where + " -> " + s.show_());
+		{
+			json_tokener_reset(reused.t);
+			POut sr = parse_call(reused.t, x.text, true);
+			if (sr.err == json_tokener_success)
+				ctx.fail(std::string("strict-accepts-") + KNAME[x.k], "a strict tokener that was reset and reused accepted " + where + " -> " + sr.show_());
+		}
 		// strict stays strict when combined with the UTF-8 validation flag (documents here are valid UTF-8 unless the
 		// injected bytes are not: then rejection is right anyway)
 		POut su = parse_fresh(x.text, JSON_TOKENER_STRICT | JSON_TOKENER_VALIDATE_UTF8, 32, true);
@@ -196,6 +214,18 @@ static void check_doc(Ctx &ctx, const std::string &doc, uint64_t salt)
 		POut d = parse_fresh(x.text, 0, 32, true);
 		if (d.err != json_tokener_success)
 			ctx.fail(std::string("default-rejects-") + KNAME[x.k], "default mode rejected " + where + " -> " + d.show_());
+		if (x.text.find('\0') == std::string::npos)
+		{
+			// the convenience entry point is default mode too
+			enum json_tokener_error pe = json_tokener_error_depth;
+			json_object *o = json_tokener_parse_verbose(x.text.c_str(), &pe);
+			Val pv = dump(o);
+			json_object_put(o);
+			std::string pwhy;
+			if (pe != json_tokener_success || !same_val(d.v, pv, pwhy, DBL_BITS))
+				ctx.fail(std::string("default-rejects-") + KNAME[x.k], "json_tokener_parse_verbose disagrees with default-mode json_tokener_parse_ex on " + where + ": " +
+				                                                          json_tokener_error_desc(pe) + " " + pwhy);
+		}
 		std::string why;
 		if (x.same_value && !same_val(ref.v, d.v, why, DBL_JUDGE))
 			ctx.fail(std::string("default-value-") + KNAME[x.k], "default mode value changed by " + where + ": " + why);
